@@ -12,6 +12,7 @@ string c16_iter_case_3(const std::vector<string>& t);   // ir
 string c16_misc_case(const std::vector<string>& t);     // sl, trl, idxrun, irange, tr, sparse
 string c16_hy_case(const std::vector<string>& t);       // hy
 string c16_extra_case(const std::vector<string>& t);    // impl2.cc
+string c16_audit_case(const std::vector<string>& t);    // impl4.cc
 #define SIR(k) string c16_sirange_##k(const std::vector<string>& t);
 SIR(0) SIR(1) SIR(2) SIR(3) SIR(4) SIR(5) SIR(6) SIR(7) SIR(8) SIR(9)
 static std::vector<string> split(const string& s, char sep = ' ')
@@ -29,7 +30,18 @@ int main(int argc, char** argv)
     auto t = split(line);
     string out;
     try {
+      auto is_audit = [&]() {
+        if (t[0] == "self" || t[0] == "walk") return true;
+        if (t.size() < 2) return false;
+        auto kp = split(t[1], ':');
+        if ((t[0] == "cmp" || t[0] == "step" || t[0] == "ncmp" || t[0] == "nstep") &&
+            (kp[0] == "al1" || kp[0] == "al8" || kp[0] == "dmrow" || kp[0] == "nfptri" || (kp[0] == "ir" && (kp[1] == "ill" || kp[1] == "ull" || kp[1] == "ch")))) return true;
+        if (t[0] == "idxrun" && (t[1] == "ir" || t[1] == "al" || t[1] == "tr")) return true;
+        if (t[0] == "hyx" && t[1] == "dyn") return true;
+        if (t[0] == "trx" && (t[1] == "nested" || t[1] == "fvbase" || t[1] == "itrange" || t[1] == "copy" || t[1] == "twice" || t[1] == "cat")) return true;
+        return false; };
       if (t.empty()) out = "BADCASE";
+      else if (is_audit()) out = c16_audit_case(t);
       else if (t[0] == "cmp" || t[0] == "step" || t[0] == "cmpx") {
         string kind = split(t[1], ':')[0];
         if (kind == "dyn" || kind == "gen" || kind == "fv") out = c16_iter_case_1(t);
